@@ -1,4 +1,5 @@
 import ChemProofs.Drv.C12
+import ChemProofs.Drv.Comp
 /- Model driver: `driver <mode>` reads op lines on stdin, prints one observation line per op. -/
 open Chem.Drv
 
@@ -13,6 +14,9 @@ def main (args : List String) : IO UInt32 := do
   match args with
   | ["c12"] => do
     for l in c12All do IO.println l
+    return 0
+  | ["comp"] => do
+    loop (← IO.getStdin) runCompCase
     return 0
   | _ => do
     IO.eprintln s!"driver: unknown mode {args}"
